@@ -108,11 +108,19 @@ def cms(repo, chk):
     if len(rets) != 1:
         chk.unsure('C15.3', 'R15', query.site(), 'query', 'expected a single return')
         return
-    rt = term_of(query, rets[0].value, {qx: ('role', 'x')})
+    # path evaluation (a running-minimum loop is summarised as min(... for i in range(depth)))
+    from ..match import run_paths
+    qpaths = run_paths(query, None, None, max_forks=2)
+    if qpaths and len(qpaths) == 1 and qpaths[0][1].unknown is None and qpaths[0][1].returned is not None:
+        rt = term_of(query, qpaths[0][1].returned, {qx: ('role', 'x')}, inline=False)
+    else:
+        rt = term_of(query, rets[0].value, {qx: ('role', 'x')})
     Q = lambda s: expected_term(m, s, {'x': ('role', 'x')})
     forms = []
     for cellsrc in (f'self.M[i][{hname}(x, self.hash_seeds[i], self.width)]', f'self.M[i, {hname}(x, self.hash_seeds[i], self.width)]'):
         forms += [Q(f'min({cellsrc} for i in range(self.depth))'), Q(f'min([{cellsrc} for i in range(self.depth)])'), Q(f'numpy.min([{cellsrc} for i in range(self.depth)])')]
+    forms += [Q(f'numpy.min(self.M[numpy.arange(self.depth), [{hname}(x, s, self.width) for s in self.hash_seeds]])'), Q(f'self.M[numpy.arange(self.depth), [{hname}(x, s, self.width) for s in self.hash_seeds]].min()'),
+              Q(f'min(self.M[i][{hname}(x, s, self.width)] for i, s in enumerate(self.hash_seeds))')]
     if rt in forms:
         chk.ok('C15.3', 'R15', query.site(rets[0]), ast.unparse(rets[0]), 'estimate = min over all rows of the cell addressed exactly as in the update (same hash, seed, width)')
     else:
@@ -224,6 +232,11 @@ def counter(repo, chk):
                    f'every mutation of the counter must be dominated by `len(self.default_counter) < self.{battr}` (strict): otherwise more than bound distinct values are tracked; guards found: {seen or "none"}')
         inc_ok = isinstance(mu, ast.AugAssign) and isinstance(mu.op, ast.Add) and isinstance(mu.value, ast.Constant) and mu.value.value == 1 and isinstance(mu.target, ast.Subscript) \
             and isinstance(mu.target.slice, ast.Name) and mu.target.slice.id == val
+        if isinstance(mu, ast.Expr) and mu.value.func.attr == 'update' and len(mu.value.args) == 1 and not mu.value.keywords:
+            a0 = mu.value.args[0]
+            # Counter.update(iterable) counts each element once: a one-element tuple / list of the value adds exactly 1 at that key
+            inc_ok = isinstance(a0, (ast.Tuple, ast.List)) and len(a0.elts) == 1 and isinstance(a0.elts[0], ast.Name) and a0.elts[0].id == val
+            inc_ok = inc_ok or (isinstance(a0, ast.Dict) and len(a0.keys) == 1 and isinstance(a0.keys[0], ast.Name) and a0.keys[0].id == val and isinstance(a0.values[0], ast.Constant) and a0.values[0].value == 1)
         chk.expect(inc_ok, 'C15.4c', 'R13', add.site(mu), ast.unparse(mu), 'the key val is incremented by exactly 1', 'the counter must be incremented by exactly 1 at key val (never over-counts, exact below the bound)')
     # writers of default_counter in the module
     writers = set()
@@ -234,6 +247,8 @@ def counter(repo, chk):
                 tg = n.target
             elif isinstance(n, (ast.Assign, ast.AnnAssign)):
                 tg = n.targets[0] if isinstance(n, ast.Assign) else n.target
+            if isinstance(n, ast.Call) and isinstance(n.func, ast.Attribute) and n.func.attr in ('update', 'subtract', 'setdefault', 'pop', 'clear', 'popitem') and isinstance(n.func.value, ast.Attribute) and n.func.value.attr == 'default_counter':
+                writers.add(f.qualname)
             if tg is None:
                 continue
             base = tg.value if isinstance(tg, ast.Subscript) else tg
